@@ -9,6 +9,7 @@ def parseFV (s : String) : Option FV :=
   else if s == "b1" then some (.bool true)
   else if s == "b0" then some (.bool false)
   else if s.startsWith "i" then (s.drop 1).toString.toInt?.map .int
+  else if s.startsWith "F" then (s.drop 1).toString.toNat?.map .f64
   else if s.startsWith "f" then (s.drop 1).toString.toInt?.map .flt
   else if s.startsWith "as" then
     let body := (s.drop 2).toString
